@@ -52,6 +52,7 @@ FN         == [k |-> "func"]
 AR(len, e) == [k |-> "array", len |-> len, e |-> e]
 ST(fs)     == [k |-> "struct", fields |-> fs]    \* fs = sequence of field types, in declaration order
 NM(u)      == [k |-> "named", u |-> u]           \* a defined type with underlying type u
+AL(u)      == [k |-> "alias", u |-> u]           \* an alias declaration: denotes the very type u
 
 Min(a, b) == IF a < b THEN a ELSE b
 Max(a, b) == IF a > b THEN a ELSE b
@@ -96,7 +97,7 @@ TL(t, p) ==
     [] t.k \in {"iface", "func"} -> [s |-> 2 * p.ptr, a |-> p.ptr, o |-> <<>>]              \* two words
     [] t.k = "slice" -> [s |-> 3 * p.ptr, a |-> p.ptr, o |-> <<>>]                          \* three words
     [] t.k = "array" -> Only({[s |-> t.len * e.s, a |-> e.a, o |-> <<>>] : e \in {TL(t.e, p)}})
-    [] t.k = "named" -> TL(t.u, p)
+    [] t.k \in {"named", "alias"} -> TL(t.u, p)
     [] t.k = "struct" ->
          \* size: end of the last field, plus one byte if that field is empty and the struct is not (zpad),
          \* rounded up to the struct's alignment
@@ -111,7 +112,7 @@ MaxSlot == 128
 Slot(x, p) == IF Size(x, p) > MaxSlot THEN P(x) ELSE x
 Bucket(t, p) == ST(<<AR(8, B("uint8")), AR(8, Slot(t.key, p)), AR(8, Slot(t.e, p)), B("uintptr")>>)
 RECURSIVE Under(_)
-Under(t) == IF t.k = "named" THEN Under(t.u) ELSE t
+Under(t) == IF t.k \in {"named", "alias"} THEN Under(t.u) ELSE t
 
 \* what is compared: <<size, alignment, field offsets, map slots (key slot, element slot, bucket size; maps only)>>
 Lay(t, p) == Only({<<l.s, l.a, l.o,
@@ -128,7 +129,7 @@ Comparable(t) ==
   CASE t.k \in {"basic", "ptr", "chan", "iface"} -> TRUE
     [] t.k \in {"func", "slice", "map"} -> FALSE
     [] t.k = "array" -> Comparable(t.e)
-    [] t.k = "named" -> Comparable(t.u)
+    [] t.k \in {"named", "alias"} -> Comparable(t.u)
     [] t.k = "struct" -> \A i \in 1..Len(t.fields) : Comparable(t.fields[i])
 \* "made only of C-compatible fields": fixed-width integers, floats, complex (C99 _Complex), pointers, non-empty
 \* arrays and non-empty structs of those
@@ -137,23 +138,25 @@ CCompat(t) ==
     [] t.k = "ptr" -> TRUE
     [] t.k \in {"func", "slice", "map", "chan", "iface"} -> FALSE
     [] t.k = "array" -> t.len > 0 /\ CCompat(t.e)
-    [] t.k = "named" -> CCompat(t.u)
+    [] t.k \in {"named", "alias"} -> CCompat(t.u)
     [] t.k = "struct" -> Len(t.fields) > 0 /\ \A i \in 1..Len(t.fields) : CCompat(t.fields[i])
 
 \* ------------------------------------------------------------------ the grammar, enumerated step by step
+CONSTANT Tier       \* "quick": a sub-grammar (narrower menus for 3/4-field structs and for what gets wrapped); "thorough": all
+Full == Tier = "thorough"
 Scalars == {B(n) : n \in {"bool", "int8", "uint8", "int16", "uint16", "int32", "uint32", "int64", "uint64", "int", "uint",
                           "uintptr", "float32", "float64", "complex64", "complex128", "string", "unsafeptr"}}
 Words == {P(B("int64")), P(FN), SL(B("int8")), SL(FN), IFC(0), IFC(1), MP(B("int32"), B("int64")), MP(B("string"), FN),
-          CH(B("int64")), CH(FN), FN}
+          CH(B("int64")), CH(FN), FN, AL(FN)}
 Zeros == {ST(<<>>), AR(0, B("int64")), AR(0, B("int8")), AR(0, FN)}
 Leaves == Scalars \cup Words \cup Zeros
 \* field menus: structs of <= 2 fields over all leaves, 3 fields over M3, 4 fields over M4
 M4 == {B("int8"), B("int32"), B("int64"), B("complex128"), B("string"), FN, ST(<<>>), AR(0, B("int64"))}
 M3 == M4 \cup {B("bool"), B("int16"), B("float32"), B("float64"), B("int"), P(B("int64")), SL(B("int8")), IFC(0)}
 Pads == {B("int8"), B("int64"), FN, ST(<<>>)}
+PadPairs == IF Full THEN Pads \X Pads
+            ELSE {<<B("int8"), B("int8")>>, <<B("int64"), ST(<<>>)>>, <<FN, B("int8")>>, <<ST(<<>>), B("int64")>>}
 
-CONSTANT Tier       \* "quick": a sub-grammar (narrower menus for 3/4-field structs and for what gets wrapped); "thorough": all
-Full == Tier = "thorough"
 Menu3 == IF Full THEN M3 ELSE M4
 Menu4 == IF Full THEN M4 ELSE M4 \ {B("int32"), B("string")}
 
@@ -172,12 +175,12 @@ Small(x) == \/ x \in M4
             \/ x.k = "struct" /\ Len(x.fields) <= (IF Full THEN 2 ELSE 1) /\ InM(x.fields, M4)
 Wrappable2 == ph = 3 /\ sm
 
-Wrap1(x) == {AR(0, x), AR(1, x), AR(3, x), NM(x), P(x)}
+Wrap1(x) == {AR(0, x), AR(1, x), AR(3, x), NM(x), AL(x), P(x)}
             \cup {ST(<<p, x>>) : p \in Pads} \cup {ST(<<x, p>>) : p \in Pads}
-            \cup {ST(<<p, x, q>>) : p \in Pads, q \in Pads}
+            \cup {ST(<<pq[1], x, pq[2]>>) : pq \in PadPairs}
             \cup {MP(B("int8"), x)}
             \cup (IF Comparable(x) THEN {MP(x, B("int64"))} ELSE {})
-Wrap2(x) == {AR(0, x), AR(3, x), NM(x), ST(<<B("int8"), x>>), ST(<<x, B("int8")>>), ST(<<x, ST(<<>>)>>),
+Wrap2(x) == {AR(0, x), AR(3, x), NM(x), AL(x), ST(<<B("int8"), x>>), ST(<<x, B("int8")>>), ST(<<x, ST(<<>>)>>),
              ST(<<FN, x, B("int64")>>), MP(B("int8"), x)}
 
 Init == t = Root /\ ph = 0 /\ sm = FALSE
